@@ -147,7 +147,7 @@ def modules_of(text):
     out = []
     for part in text.split(L.HEADER)[1:]:
         m = re.match(r'module (\S+)', part)
-        if m: out.append((m.group(1), part))
+        if m: out.append((m.group(1), part.rstrip('\n')))
     return out
 
 
@@ -418,10 +418,10 @@ def compare_with_model(ctx, batch):
         tr, rf = res['m%d' % k], res['r%d' % k]
         heap_map = {}
         for j, (row, exp) in enumerate(zip(tr, h['expect'])):
-            ans, cache, heap, log = row
+            ans, cache, heap, log = (row[0], row[1]), row[2], row[3], row[4]      # Coq prints ((a, b), c, d, e) flat
             if exp is None: continue
             where = {'request_index': j, 'request': h['reqs'][j][:200], 'op_index': exp['op_index']}
-            if rf[j] != ans:
+            if tuple(rf[j]) != ans:
                 out.append((h, 'model answer differs from the reference answer (a theorem says they agree: harness bug?)', where)); break
             if exp['res'][0] != 'ok' or ans[0] != 1:
                 out.append((h, 'real generator raised / model gave no answer', dict(where, real=exp['res'][1][:200]))); break
@@ -446,7 +446,7 @@ def compare_with_model(ctx, batch):
                     if rhdr != hdr: msg = 'header of %s: real %s, model %s' % (rc['name'], rhdr, hdr); break
                     if sorted(rc['decls']) != sorted(render_v(strs, v) for v in decls):
                         msg = 'declarations of %s: real %s, model %s' % (rc['name'], sorted(rc['decls']), sorted(render_v(strs, v) for v in decls)); break
-                    minst = [(render_s(strs, it[1]), strs[it[2]], [(render_v(strs, a), render_v(strs, b)) for a, b in it[4]]) for it in body if it[0] == 1]
+                    minst = [(render_s(strs, it[1]), strs[it[2]], [(render_v(strs, (c[0], c[1])), render_v(strs, c[2])) for c in it[4]]) for it in body if it[0] == 1]      # ((a, b), (c, d)) prints (a, b, (c, d))
                     rinst = []
                     for idx, (m_, n_, cs) in enumerate(rc['insts']):
                         if idx < len(minst) and len(cs) == len(minst[idx][2]) + 1: cs = cs[1:]      # implicit clock connection
@@ -589,6 +589,7 @@ def run(ctx):
         except RuntimeError as ex:
             tie_msg = ('the model could not be evaluated: %s' % str(ex)[-600:], {}, None)
         ctx.notes['histories_compared_with_model'] = len(records)
+        if tie_msg: ctx.log('model/real mismatch:', tie_msg[0], tie_msg[1])
     if ok:
         cm = canon_crosscheck(ctx, [s for s in samples if s] + ['wire w_b;\nwire [3:0] w_a;\nX_7f00aa11bb22 i_x(.a(w_a));\nY_deadbeef i(.a(w_b));\nX_7f00aa11bb22 j();\n'])
         if cm:
